@@ -34,19 +34,53 @@ _set = builtins.set
 CH = None   # the chooser of the current execution (None = canonical order, no choice points)
 
 
+_ORD = {}      # id -> (first-seen ordinal, strong reference) within the current execution
+_KEEP = []
+
+
+def _ordinal(x):
+    i = id(x)
+    if i not in _ORD:
+        _ORD[i] = len(_ORD)
+        _KEEP.append(x)       # keep it alive: no id reuse within one execution
+    return _ORD[i]
+
+
+def _reset_ordinals():
+    _ORD.clear()
+    del _KEEP[:]
+
+
 def _key(x):
     if isinstance(x, str):
-        return (0, str(x), '')
+        return (0, str(x), '', '', 0)
     pos = getattr(x, 'declared_at', None) or getattr(x, 'location', None) or (0, 0)
     try:
         pos = tuple(pos)
     except TypeError:
         pos = (0, 0)
-    return (1, pos, getattr(x, 'name', ''), type(x).__name__)
+    return (1, pos, str(getattr(x, 'name', '')), type(x).__name__, _ordinal(x))
 
 
 class ChoiceSet(_set):
     """a set whose iteration order is decided by the explorer"""
+
+    # elements get their canonical ordinal at INSERTION time (program order is deterministic,
+    # the native iteration order of a set of id-hashed objects is not)
+    def __init__(self, it=()):
+        _set.__init__(self)
+        for x in it:
+            self.add(x)
+
+    def add(self, x):
+        if not isinstance(x, str):
+            _ordinal(x)
+        _set.add(self, x)
+
+    def update(self, *its):
+        for it in its:
+            for x in it:
+                self.add(x)
 
     def __iter__(self):
         items = list(_set.__iter__(self))
@@ -107,10 +141,13 @@ HAND = [
     ('try-alts', 'try:\n    import json as j\nexcept ImportError:\n    j = None\nelse:\n    k = 1\nj\n', [(7, 1)]),
     ('star-conditional', 'from m2 import *\nz2\nx2\n', [(2, 2), (3, 2)]),
     ('from-conditional', 'from m2 import z2\nz2\n', [(2, 2)]),
-    ('module-attr', 'import m2\nm2.z2\nm2.\n', [(2, 5), (3, 3)]),
-    ('composite-attr', 'class A:\n    def m(self): pass\n    p = 1\nclass B:\n    def m(self): pass\n    q = 2\nif 1:\n    o = A()\nelse:\n    o = B()\no.m\no.\n', [(11, 3), (12, 2)]),
+    ('module-attr', 'import m2\nm2.z2\n', [(2, 5), (2, 3)]),
+    ('composite-attr', 'class A:\n    def m(self): pass\n    p = 1\nclass B:\n    def m(self): pass\n    q = 2\nif 1:\n    o = A()\nelse:\n    o = B()\no.m\n', [(11, 3), (11, 2)]),
     ('class-attr-branches', 'class A:\n    if 1:\n        v = 1\n    else:\n        v = 2\n    w = v\nA.v\nA().w\n', [(7, 3), (8, 5)]),
-    ('self-assign-multi', 'class A:\n    def a(self):\n        self.t = 1\n    def b(self):\n        self.t = 2\n        self.u = 3\n    def c(self):\n        self.t\n        self.\n', [(8, 14), (9, 13)]),
+    ('self-assign-multi', 'class A:\n    def a(self):\n        self.t = 1\n    def b(self):\n        self.t = 2\n        self.u = 3\n    def c(self):\n        self.t\n', [(8, 14), (8, 13)]),
+    ('four-values', 'class A:\n    def run(self): pass\nclass B:\n    def run(self): pass\nclass C:\n    def run(self): pass\nclass D:\n    def run(self): pass\nif 1:\n    x = A()\nelif 2:\n    x = B()\nelif 3:\n    x = C()\nelse:\n    x = D()\nx.run\n', [(17, 5), (17, 2)]),
+    ('elif-no-else', 'if 1:\n    x = 1\nelif 2:\n    x = 2\nx\nif 3:\n    if 4:\n        y = 1\n    elif 5:\n        y = 2\nelse:\n    if 6:\n        y = 3\ny\n', [(5, 1), (14, 1)]),
+    ('import-conditional-elif', 'from m3 import backend\nbackend\nimport m3\nm3.backend\n', [(2, 7), (4, 10)]),
     ('func-alts', 'if 1:\n    def f(): return 1\nelse:\n    def f(): return ""\nr = f()\nr\nf\n', [(6, 1), (7, 1)]),
     ('nested-multi', 'if 1:\n    a = 1\nelse:\n    a = 2\nif 2:\n    b = a\nelse:\n    b = 3\n    a = 4\nb\na\n', [(10, 1), (11, 1)]),
     ('while-carried', 'a = 0\nwhile a:\n    if a:\n        a = 1\n    else:\n        b = a\n        a = 2\na\n', [(6, 13), (8, 1)]),
@@ -196,6 +233,7 @@ def explore_request(req, bound):
     def body(ch):
         global CH
         CH = ch
+        _reset_ordinals()
         try:
             return answer(text, pos)
         finally:
@@ -304,10 +342,12 @@ def replay(w):
         out, _ = check_request(tuple(w['req']), w['bound'])
         return out
     if w['kind'] == 'grid':
-        reqs = [w['req']]
-        a = grid_run(reqs, w['a'][0], w['a'][1])
-        b = grid_run(reqs, w['b'][0], w['b'][1])
-        if a != b:
+        # the same complete request list as in the run: the allocation history of the process is part of the configuration
+        reqs = requests(w['tier'])
+        greqs = reqs if w['tier'] != 'quick' else reqs[:30]
+        a = grid_run(greqs, w['a'][0], w['a'][1])
+        b = grid_run(greqs, w['b'][0], w['b'][1])
+        if a[w['index']] != b[w['index']]:
             return [(w['sig'], 'outputs differ between configurations %s and %s' % (w['a'], w['b']))]
         return []
     raise ValueError(w)
@@ -339,7 +379,7 @@ def run(ctx):
             what = ('outputs differ between fresh interpreters (PYTHONHASHSEED, preallocated objects)=%s and %s for cursor %s: %s=%s vs %s\n--- source ---\n%s' % (
                 outs[ks[0]], outs[ks[1]], req[2], field, json.dumps(a.get(field))[:300], json.dumps(b.get(field))[:300], req[1]))
             if aslr:
-                ctx.violation(sig, what, {'kind': 'grid', 'req': list(req), 'a': list(outs[ks[0]]), 'b': list(outs[ks[1]]), 'sig': sig})
+                ctx.violation(sig, what, {'kind': 'grid', 'req': list(req), 'a': list(outs[ks[0]]), 'b': list(outs[ks[1]]), 'sig': sig, 'tier': ctx.tier, 'index': i})
             else:
                 ctx.count('grid_differences_not_reproducible_without_setarch')
         ctx.outcome(list(outs)[0])
